@@ -731,7 +731,10 @@ pub fn run(ctx: &Ctx, rep: &mut Report) {
         }
         return;
     }
-    name_family(rep, thorough);
+    // (the in-process name family makes no dump: nothing for another property's universal oracle to see)
+    if !crate::checks::universal::IN_CROSS.load(std::sync::atomic::Ordering::SeqCst) {
+        name_family(rep, thorough);
+    }
     let all_results = run_real_cases(thorough);
     let mut per_family: HashMap<&'static str, [u64; 3]> = HashMap::new();
     for (c, v) in all_results {
